@@ -29,7 +29,7 @@ PROP = dict(
         "single-table statements; a table is read or written by at most one statement kind at a time (no INSERT ... SELECT from another table, no joins) in the generated programs",
         "the interactive shell is not covered (non-interactive runs: the first failing statement ends the program)",
     ],
-    level_text="Proof: Coq theorems (Properties/C11.v) about a state-machine model of the handler life cycle (Model/Cleanup.v: NewHandlerForRead/Update/Create with every failure point, Handler.close / closeWithErrors, FileContainer bookkeeping, Transaction.Commit/Rollback/ReleaseResources, the deferred rollback + forced release of commandAction), for ALL initial directories incl. competing holders' files, ALL programs, ALL failure points (error, EXIT, timeout, cancellation, also inside COMMIT) and ALL map orders: C11_tracked / C11_handler_invariant (every file the run made and has not committed is referenced by a live handler), C11_cleanup_complete (after the deferred release the container is empty, every control-file path is bound exactly as before the run, every table file is as before unless a completed COMMIT wrote it), C11_read_only_untouched (reading programs issue no call that can change a data file and leave the directory as it was). Tied to the code on every run by strace: for success, syntax error, missing table, division by zero inside SELECT/UPDATE/CREATE TABLE AS SELECT, duplicate CREATE, EXIT, wait timeouts against hand-made .lock/.rlock/.temp files, SIGINT/SIGTERM/SIGQUIT injected at system call N, table names so long that the names of their control files do not fit (the retry loop of the read lock: .lock made, .rlock refused, .lock removed, until the timeout = action ARetryRead), and single system calls made to FAIL by strace (every repository openat, write, ftruncate once and from then on, with ENOSPC/EACCES/EIO/ENAMETOOLONG), the trace of the real binary must equal the model's trace (signalled runs: the model cancelled at some step) and the directory found must equal the model's; the decidable spec (no new control file, no uncommitted created table, data bytes+mtimes unchanged for read-only programs) is evaluated on the directory found.",
+    level_text="Proof: Coq theorems (Properties/C11.v) about a state-machine model of the handler life cycle (Model/Cleanup.v: NewHandlerForRead/Update/Create with every failure point, Handler.close / closeWithErrors, FileContainer bookkeeping, Transaction.Commit/Rollback/ReleaseResources, the deferred rollback + forced release of commandAction), for ALL initial directories incl. competing holders' files, ALL programs, ALL failure points (error, EXIT, timeout, cancellation, also inside COMMIT) and ALL map orders: C11_tracked / C11_handler_invariant (every file the run made and has not committed is referenced by a live handler), C11_cleanup_complete (after the deferred release the container is empty, every control-file path is bound exactly as before the run, every table file is as before unless a completed COMMIT wrote it), C11_read_only_untouched (reading programs issue no call that can change a data file and leave the directory as it was). Tied to the code on every run by strace: for success, syntax error, missing table, division by zero inside SELECT/UPDATE/CREATE TABLE AS SELECT, duplicate CREATE, EXIT, wait timeouts against hand-made .lock/.rlock/.temp files, SIGINT/SIGTERM/SIGQUIT injected at system call N, table names so long that the names of their control files do not fit (the retry loop of the read lock: .lock made, .rlock refused, .lock removed, until the timeout = action ARetryRead), and single system calls made to FAIL by strace (every repository openat, write, ftruncate once and from then on, with ENOSPC/EACCES/EIO/ENAMETOOLONG), programs delivered on the command line, through --source FILE and through a ./csvqrc preload file, and table names that differ only in case (FileContainer keys are upper-cased paths), the trace of the real binary must equal the model's trace (signalled runs: the model cancelled at some step) and the directory found must equal the model's; the decidable spec (no new control file, no uncommitted created table, data bytes+mtimes unchanged for read-only programs) is evaluated on the directory found.",
     level_note="Trusted: Coq kernel + vm_compute; strace and its signal injection; the Go harness (program-to-action translation, trace parser, snapshots); POSIX semantics of the six calls; close/remove of own files never fails. That cancellation is only observed at the modelled points is validated by the injection runs, not proved. Failing openat/write/ftruncate calls are covered by the model (failure at any step); a failing renameat or flock is outside the model and judged by model-free checks only (no control file left, every table complete old or new, no internal failure). Not covered: interactive shell, multi-table statements, failures of close/unlink themselves, dynamic competitors (C09), kills (C10).",
     technique="Coq invariant proof on an executable state-machine model of the file-handler life cycle + strace correspondence (traces and final directories, error/timeout/signal injection) with the real binary",
     design_ref="DESIGN.md section 5 (C11)",
